@@ -1,4 +1,6 @@
 //! Harnesses for core/src/bitfield.rs (child module: sees private items).
+//!
+//! B layer of DESIGN.md: one symbolic bitfield (all 2^512 contents), one call, exact contract.
 #![allow(dead_code, unused_imports)]
 use super::*;
 use crate::verif_support::*;
@@ -21,13 +23,217 @@ fn c23_body(order: usize) {
     let v: u64 = kani::any();
     let r = first_zeros_aligned(v, order);
     let e = ref_fza(v, order);
+    vcover!("C23", r.is_some() && (order == 6 || v != 0), "block found (in a non-empty row for orders below 6)");
+    vcover!("C23", r.is_none(), "no block");
     vassert!("C23", r.is_none() == e.is_none(), "reports no block exactly when the row has no free aligned block");
     if let (Some((rv, ro)), Some((ev, eo))) = (r, e) {
         vassert!("C23", ro == eo, "reports the lowest free aligned block");
         vassert!("C23", rv == ev, "returns the row with exactly that block's bits additionally set");
     }
-    vcover!("C23", r.is_some() && (order == 6 || v != 0), "block found (in a non-empty row for orders below 6)");
-    vcover!("C23", r.is_none(), "no block");
+}
+
+// ---------------------------------------------------------------------------------------------
+// Symbolic bitfields and the bit-level reference model
+// ---------------------------------------------------------------------------------------------
+pub(crate) const NROWS: usize = ROWS;
+
+pub(crate) fn any_bitfield() -> Bitfield {
+    Bitfield { data: core::array::from_fn(|_| Atom::new(kani::any())) }
+}
+pub(crate) fn bitfield_from(rows: [u64; ROWS]) -> Bitfield {
+    Bitfield { data: core::array::from_fn(|i| Atom::new(rows[i])) }
+}
+/// Raw rows, bypassing the observers.
+pub(crate) fn rows_of(b: &Bitfield) -> [u64; ROWS] {
+    core::array::from_fn(|i| b.data[i].0.load(core::sync::atomic::Ordering::Relaxed))
+}
+pub(crate) fn set_rows(b: &Bitfield, rows: &[u64; ROWS]) {
+    for i in 0..ROWS {
+        b.data[i].0.store(rows[i], core::sync::atomic::Ordering::Relaxed);
+    }
+}
+/// Mask of the block [off, off + 2^order) restricted to row `r` (off is aligned to 2^order).
+pub(crate) fn block_mask(r: usize, off: usize, order: usize) -> u64 {
+    let n = 1usize << order;
+    if n >= 64 {
+        if r >= off / 64 && r < (off + n) / 64 { u64::MAX } else { 0 }
+    } else if r == off / 64 {
+        (u64::MAX >> (64 - n)) << (off % 64)
+    } else {
+        0
+    }
+}
+pub(crate) fn block_all(rows: &[u64; ROWS], off: usize, order: usize, set: bool) -> bool {
+    let mut ok = true;
+    for r in 0..ROWS {
+        let m = block_mask(r, off, order);
+        if (if set { !rows[r] } else { rows[r] }) & m != 0 {
+            ok = false;
+        }
+    }
+    ok
+}
+/// post == pre with exactly the block's bits flipped
+pub(crate) fn flipped(pre: &[u64; ROWS], post: &[u64; ROWS], off: usize, order: usize) -> bool {
+    let mut ok = true;
+    for r in 0..ROWS {
+        if post[r] != pre[r] ^ block_mask(r, off, order) {
+            ok = false;
+        }
+    }
+    ok
+}
+pub(crate) fn same(pre: &[u64; ROWS], post: &[u64; ROWS]) -> bool {
+    let mut ok = true;
+    for r in 0..ROWS {
+        if post[r] != pre[r] {
+            ok = false;
+        }
+    }
+    ok
+}
+pub(crate) fn zeros(rows: &[u64; ROWS]) -> usize {
+    let mut n = 0usize;
+    for r in 0..ROWS {
+        n += rows[r].count_zeros() as usize;
+    }
+    n
+}
+
+/// Any frame id (below 2^40) aligned to `order`; returns (frame, offset inside its huge frame).
+pub(crate) fn any_aligned_frame(order: usize) -> (FrameId, usize) {
+    let f: usize = kani::any();
+    kani::assume(f < (1 << 40) && f % (1 << order) == 0);
+    (FrameId(f), f % Bitfield::LEN)
+}
+
+fn toggle_body(order: usize) {
+    let b = any_bitfield();
+    let pre = rows_of(&b);
+    let (frame, off) = any_aligned_frame(order);
+    let expected: bool = kani::any();
+    install(Mode::Seq);
+    let r = b.toggle(frame, order, expected);
+    set_mode(Mode::Off);
+    let post = rows_of(&b);
+    let was = block_all(&pre, off, order, expected);
+    vcover!("C02", r.is_ok() && expected, "free toggles a held block");
+    vcover!("C02", r.is_err(), "toggle refused");
+    vassert!("C02", r.is_ok() == was, "a block is toggled exactly when all its bits have the expected state");
+    if r.is_ok() {
+        vassert!("C02", flipped(&pre, &post, off, order), "exactly the block's bits change");
+    } else {
+        vassert!("C02", r == Err(Error::Memory), "refusal is reported as out of memory");
+        vassert!("C02", same(&pre, &post), "a refused toggle changes nothing");
+    }
+}
+
+fn set_first_zeros_body(order: usize) {
+    let b = any_bitfield();
+    let pre = rows_of(&b);
+    let start: usize = kani::any();
+    kani::assume(start < (1 << 34));
+    install(Mode::Seq);
+    let r = b.set_first_zeros(RowId(start), order);
+    set_mode(Mode::Off);
+    let post = rows_of(&b);
+    // witness: an arbitrary aligned position
+    let p: usize = kani::any();
+    kani::assume(p < Bitfield::LEN && p % (1 << order) == 0);
+    vcover!("C12", r.is_ok() && (order == Bitfield::ORDER || pre[0] != 0), "block found (in a partially used bitfield below the huge order)");
+    vcover!("C12", r.is_err(), "no block");
+    match r {
+        Ok(f) => {
+            vassert!("C01", f.0 < Bitfield::LEN && f.0 % (1 << order) == 0, "found block is aligned and inside the bitfield");
+            vassert!("C01", block_all(&pre, f.0, order, false), "found block was entirely free");
+            vassert!("C12", flipped(&pre, &post, f.0, order), "a success marks exactly that block");
+        }
+        Err(e) => {
+            vassert!("C12", e == Error::Memory, "failure is out of memory");
+            vassert!("C12", same(&pre, &post), "a failed search changes nothing");
+            vassert!("C12", !block_all(&pre, p, order, false), "search fails only if no aligned block of the order is free");
+        }
+    }
+}
+
+fn is_zero_body(order: usize) {
+    let b = any_bitfield();
+    let pre = rows_of(&b);
+    let (frame, off) = any_aligned_frame(order);
+    // `is_zero` is only called with frames inside the bitfield's huge frame by `Lower`; it indexes
+    // rows modulo the bitfield, except that multi-row ranges must not wrap: any frame qualifies.
+    let r = b.is_zero(frame, order);
+    vassert!("C04", r == block_all(&pre, off, order, false), "is_zero reports exactly whether the block is free");
+    vassert!("C04", same(&pre, &rows_of(&b)), "queries change nothing");
+}
+
+// @h props=C04,C06 tier=quick geom=4 panics=C09 mem=C18
+#[kani::proof]
+#[kani::unwind(34)]
+fn b_count_fill_set() {
+    let b = any_bitfield();
+    let pre = rows_of(&b);
+    vassert!("C04", b.count_zeros() == zeros(&pre), "count_zeros is the number of clear bits");
+    let lo: usize = kani::any();
+    let hi: usize = kani::any();
+    // (`Lower::free_all` is the only caller and passes ranges relative to the bitfield)
+    let base: usize = 0;
+    kani::assume(lo <= hi && hi <= Bitfield::LEN);
+    let v: bool = kani::any();
+    b.set(FrameId(base * Bitfield::LEN + lo)..FrameId(base * Bitfield::LEN + hi), v);
+    let post = rows_of(&b);
+    let w: usize = kani::any();
+    kani::assume(w < Bitfield::LEN);
+    let bit = |rows: &[u64; ROWS], i: usize| rows[i / 64] >> (i % 64) & 1 == 1;
+    if w >= lo && w < hi {
+        vassert!("C06", bit(&post, w) == v, "set writes every bit of the range");
+    } else {
+        vassert!("C06", bit(&post, w) == bit(&pre, w), "set leaves bits outside the range alone");
+    }
+    b.fill(v);
+    let post = rows_of(&b);
+    vassert!("C06", bit(&post, w) == v, "fill writes every bit");
+}
+
+/// Arithmetic lemmas that justify the delta-form contracts of the lower-layer harnesses
+/// (DESIGN.md §3): they relate the popcount of a bitfield to aligned blocks.
+fn lemma_popcount_block_body(order: usize) {
+    let rows: [u64; ROWS] = kani::any();
+    let p: usize = kani::any();
+    kani::assume(p < Bitfield::LEN && p % (1 << order) == 0);
+    let z = zeros(&rows);
+    let mut post = rows;
+    for r in 0..ROWS {
+        post[r] ^= block_mask(r, p, order);
+    }
+    let zp = zeros(&post);
+    if block_all(&rows, p, order, false) {
+        vassert!("C02", z >= (1 << order), "lemma: a free aligned block of order k implies at least 2^k clear bits");
+        vassert!("C02", zp + (1 << order) == z, "lemma: setting a free block lowers the clear-bit count by exactly 2^k");
+    }
+    if block_all(&rows, p, order, true) {
+        vassert!("C02", z + (1 << order) <= Bitfield::LEN, "lemma: a fully set aligned block of order k implies at most LEN - 2^k clear bits");
+        vassert!("C02", zp == z + (1 << order), "lemma: clearing a set block raises the clear-bit count by exactly 2^k");
+    }
+}
+// @h props=C02,C04,C05 tier=quick geom=4 panics=- mem=- role=lemma
+#[kani::proof]
+#[kani::unwind(34)]
+fn lemma_popcount_extremes() {
+    let rows: [u64; ROWS] = kani::any();
+    let z = zeros(&rows);
+    if z == Bitfield::LEN {
+        vassert!("C02", same(&rows, &[0; ROWS]), "lemma: LEN clear bits means every row is zero");
+    }
+    if z > 0 {
+        let mut some = false;
+        for r in 0..ROWS {
+            if rows[r] != u64::MAX {
+                some = true;
+            }
+        }
+        vassert!("C02", some, "lemma: a positive clear-bit count means some row is not full");
+    }
 }
 
 // @h props=C23 tier=quick geom=4 panics=C23 mem=C18
@@ -65,4 +271,251 @@ fn c23_fza_o5() {
 #[kani::unwind(3)]
 fn c23_fza_o6() {
     c23_body(6)
+}
+
+// @h props=C02,C01 tier=quick geom=4 tgeom= panics=C09 mem=C18
+#[kani::proof]
+#[kani::unwind(10)]
+fn b_toggle_o0() {
+    toggle_body(0)
+}
+#[kani::proof]
+#[kani::unwind(10)]
+fn b_toggle_o1() {
+    toggle_body(1)
+}
+#[kani::proof]
+#[kani::unwind(10)]
+fn b_toggle_o2() {
+    toggle_body(2)
+}
+#[kani::proof]
+#[kani::unwind(10)]
+fn b_toggle_o3() {
+    toggle_body(3)
+}
+#[kani::proof]
+#[kani::unwind(10)]
+fn b_toggle_o4() {
+    toggle_body(4)
+}
+#[kani::proof]
+#[kani::unwind(10)]
+fn b_toggle_o5() {
+    toggle_body(5)
+}
+#[kani::proof]
+#[kani::unwind(10)]
+fn b_toggle_o6() {
+    toggle_body(6)
+}
+#[kani::proof]
+#[kani::unwind(10)]
+fn b_toggle_o7() {
+    toggle_body(7)
+}
+#[kani::proof]
+#[kani::unwind(10)]
+fn b_toggle_o8() {
+    toggle_body(8)
+}
+#[kani::proof]
+#[kani::unwind(10)]
+fn b_toggle_o9() {
+    toggle_body(9)
+}
+
+// @h props=C12,C01,C02 tier=quick geom=4 tgeom= panics=C09 mem=C18
+#[kani::proof]
+#[kani::unwind(10)]
+fn b_set_first_zeros_o0() {
+    set_first_zeros_body(0)
+}
+#[kani::proof]
+#[kani::unwind(10)]
+fn b_set_first_zeros_o1() {
+    set_first_zeros_body(1)
+}
+#[kani::proof]
+#[kani::unwind(10)]
+fn b_set_first_zeros_o2() {
+    set_first_zeros_body(2)
+}
+#[kani::proof]
+#[kani::unwind(10)]
+fn b_set_first_zeros_o3() {
+    set_first_zeros_body(3)
+}
+#[kani::proof]
+#[kani::unwind(10)]
+fn b_set_first_zeros_o4() {
+    set_first_zeros_body(4)
+}
+#[kani::proof]
+#[kani::unwind(10)]
+fn b_set_first_zeros_o5() {
+    set_first_zeros_body(5)
+}
+#[kani::proof]
+#[kani::unwind(10)]
+fn b_set_first_zeros_o6() {
+    set_first_zeros_body(6)
+}
+#[kani::proof]
+#[kani::unwind(10)]
+fn b_set_first_zeros_o7() {
+    set_first_zeros_body(7)
+}
+#[kani::proof]
+#[kani::unwind(10)]
+fn b_set_first_zeros_o8() {
+    set_first_zeros_body(8)
+}
+#[kani::proof]
+#[kani::unwind(10)]
+fn b_set_first_zeros_o9() {
+    set_first_zeros_body(9)
+}
+
+// @h props=C04 tier=quick geom=4 tgeom= panics=C09 mem=C18
+#[kani::proof]
+#[kani::unwind(10)]
+fn b_is_zero_o0() {
+    is_zero_body(0)
+}
+#[kani::proof]
+#[kani::unwind(10)]
+fn b_is_zero_o3() {
+    is_zero_body(3)
+}
+#[kani::proof]
+#[kani::unwind(10)]
+fn b_is_zero_o6() {
+    is_zero_body(6)
+}
+#[kani::proof]
+#[kani::unwind(10)]
+fn b_is_zero_o7() {
+    is_zero_body(7)
+}
+#[kani::proof]
+#[kani::unwind(10)]
+fn b_is_zero_o9() {
+    is_zero_body(9)
+}
+
+// @h props=C02,C01 tier=thorough geom=16K1 tgeom= panics=C09 mem=C18
+#[kani::proof]
+#[kani::unwind(34)]
+fn b16k_toggle_o0() {
+    toggle_body(0)
+}
+#[kani::proof]
+#[kani::unwind(34)]
+fn b16k_toggle_o5() {
+    toggle_body(5)
+}
+#[kani::proof]
+#[kani::unwind(34)]
+fn b16k_toggle_o6() {
+    toggle_body(6)
+}
+#[kani::proof]
+#[kani::unwind(34)]
+fn b16k_toggle_o7() {
+    toggle_body(7)
+}
+#[kani::proof]
+#[kani::unwind(34)]
+fn b16k_toggle_o10() {
+    toggle_body(10)
+}
+#[kani::proof]
+#[kani::unwind(34)]
+fn b16k_toggle_o11() {
+    toggle_body(11)
+}
+
+// @h props=C12,C01,C02 tier=thorough geom=16K1 tgeom= panics=C09 mem=C18
+#[kani::proof]
+#[kani::unwind(34)]
+fn b16k_set_first_zeros_o0() {
+    set_first_zeros_body(0)
+}
+#[kani::proof]
+#[kani::unwind(34)]
+fn b16k_set_first_zeros_o5() {
+    set_first_zeros_body(5)
+}
+#[kani::proof]
+#[kani::unwind(34)]
+fn b16k_set_first_zeros_o6() {
+    set_first_zeros_body(6)
+}
+#[kani::proof]
+#[kani::unwind(34)]
+fn b16k_set_first_zeros_o7() {
+    set_first_zeros_body(7)
+}
+#[kani::proof]
+#[kani::unwind(34)]
+fn b16k_set_first_zeros_o10() {
+    set_first_zeros_body(10)
+}
+#[kani::proof]
+#[kani::unwind(34)]
+fn b16k_set_first_zeros_o11() {
+    set_first_zeros_body(11)
+}
+
+// @h props=C02,C04,C05 tier=quick geom=4 panics=- mem=- role=lemma
+#[kani::proof]
+#[kani::unwind(34)]
+fn lemma_popcount_block_o0() {
+    lemma_popcount_block_body(0)
+}
+#[kani::proof]
+#[kani::unwind(34)]
+fn lemma_popcount_block_o1() {
+    lemma_popcount_block_body(1)
+}
+#[kani::proof]
+#[kani::unwind(34)]
+fn lemma_popcount_block_o2() {
+    lemma_popcount_block_body(2)
+}
+#[kani::proof]
+#[kani::unwind(34)]
+fn lemma_popcount_block_o3() {
+    lemma_popcount_block_body(3)
+}
+#[kani::proof]
+#[kani::unwind(34)]
+fn lemma_popcount_block_o4() {
+    lemma_popcount_block_body(4)
+}
+#[kani::proof]
+#[kani::unwind(34)]
+fn lemma_popcount_block_o5() {
+    lemma_popcount_block_body(5)
+}
+#[kani::proof]
+#[kani::unwind(34)]
+fn lemma_popcount_block_o6() {
+    lemma_popcount_block_body(6)
+}
+#[kani::proof]
+#[kani::unwind(34)]
+fn lemma_popcount_block_o7() {
+    lemma_popcount_block_body(7)
+}
+#[kani::proof]
+#[kani::unwind(34)]
+fn lemma_popcount_block_o8() {
+    lemma_popcount_block_body(8)
+}
+#[kani::proof]
+#[kani::unwind(34)]
+fn lemma_popcount_block_o9() {
+    lemma_popcount_block_body(9)
 }
